@@ -82,6 +82,8 @@ struct World {
     reap_seen_at_call: Option<usize>, // index in `calls` of the waitpid that carried the pid or ECHILD
     waitpids: usize,
     sleeps: Vec<u64>,
+    stopped: bool,           // the child is stopped (SIGSTOP/SIGTSTP received, no SIGCONT yet): alive, not terminated
+    stop_reported: bool,     // a waitpid(WUNTRACED) has already reported this stop
     stalled_calls: u64,      // consecutive calls during which the virtual clock did not move
     spin: Option<String>,    // set when the library was caught busy-waiting (and the clock was pushed on to end the case)
 }
@@ -128,7 +130,8 @@ impl Kernel for World {
         let nohang = flags & libc::WNOHANG != 0;
         self.waitpids += 1;
         self.tick();
-        self.calls.push(format!("wp:{}:{}", self.canon(pid), if nohang { 1 } else { 0 }));
+        // the raw flags: 0 (blocking) and 1 (WNOHANG) are what the model knows; anything else shows up as a divergence
+        self.calls.push(format!("wp:{}:{}", self.canon(pid), flags));
         if pid != self.pid {
             self.resps.push("err:3".into());
             return Ans::Err(libc::ESRCH);
@@ -148,10 +151,18 @@ impl Kernel for World {
             self.resps.push("err:10".into());
             return Ans::Err(libc::ECHILD);
         }
+        if flags & libc::WUNTRACED != 0 && self.stopped && !self.stop_reported && !self.exited() {
+            // what the kernel answers to a caller that asks for stop reports: "stopped by SIGSTOP" -- the child lives on
+            self.stop_reported = true;
+            self.resps.push(format!("wp:{}:{}", CANON_PID, 0x137f));
+            return Ans::Ret((self.pid, 0x137f));
+        }
         if self.rng.below(1000) < self.foreign_pm {
             // an answer about some other pid (exercises the `pid_out == pid` guard)
-            self.resps.push(format!("wp:{}:{}", 1001, 0));
-            return Ans::Ret((1001, 0));
+            // (never the child's own pid: real pids wrap around at 32768 and do reach 1001)
+            let fp = if self.pid == 1001 { 1002 } else { 1001 };
+            self.resps.push(format!("wp:{}:{}", fp, 0));
+            return Ans::Ret((fp, 0));
         }
         if self.exited() {
             self.reaped = true;
@@ -176,7 +187,14 @@ impl Kernel for World {
             self.resps.push("err:3".into());
             return Ans::Err(libc::ESRCH);
         }
-        if pid == self.pid && !self.exited() && [1, 2, 9, 15].contains(&sig) {
+        if pid == self.pid && !self.exited() && (sig == 19 || sig == 20) {
+            self.stopped = true;
+            self.stop_reported = false;
+        }
+        if pid == self.pid && sig == 18 {
+            self.stopped = false;
+        }
+        if pid == self.pid && !self.exited() && [1, 2, 9, 15].contains(&sig) && (!self.stopped || sig == 9) {
             let t = self.now + self.rng.below(3 * MS);
             if self.exit_at.map_or(true, |e| e > t) {
                 self.exit_at = Some(t);
@@ -273,7 +291,7 @@ fn gen_case(rng: &mut Rng, idx: usize) -> Case {
             3 | 4 | 5 => Op::WaitTimeout(*rng.pick(&DURS)),
             6 => Op::Terminate,
             7 => Op::Kill,
-            8 => Op::SendSignal(*rng.pick(&[0, 1, 2, 10, 15, 18, 23, 9])),
+            8 => Op::SendSignal(*rng.pick(&[0, 1, 2, 10, 15, 18, 19, 19, 23, 9])),
             9 => Op::Detach,
             10 | 11 => Op::Pid,
             _ => Op::ExitStatus,
@@ -354,6 +372,8 @@ fn run_case(c: &Case) -> CaseResult {
         reap_seen_at_call: None,
         waitpids: 0,
         sleeps: vec![],
+        stopped: false,
+        stop_reported: false,
         stalled_calls: 0,
         spin: None,
     };
@@ -495,6 +515,13 @@ fn run_case(c: &Case) -> CaseResult {
                     if ks.len() != 1 || *ks[0] != format!("kill:{}:{}", CANON_PID, want) {
                         oracle.push(("C10".into(), format!("{} issued {:?}, expected exactly kill({}, {})", op.show(), ks, CANON_PID, want)));
                     }
+                } else if w.reap_seen_at_call.is_none() && ks.is_empty() {
+                    // the library believes the child is finished although no waitpid of its own ever returned the child
+                    // or ECHILD: the child has not been reaped, so the signal had to be delivered
+                    oracle.push((
+                        "C10".into(),
+                        format!("{} sent no signal although the child has not been reaped (no waitpid answer ever reported its end)", op.show()),
+                    ));
                 }
                 if new_calls.iter().any(|c| !c.starts_with("kill:")) {
                     oracle.push(("C10".into(), format!("{} issued other calls {:?}", op.show(), new_calls)));
